@@ -63,6 +63,7 @@ type Explorer struct {
 	St     *Stats
 	top    int
 	stop   bool
+	perTag map[string]int
 }
 
 func preemption(p vshim.Point, alt int) bool {
@@ -84,7 +85,14 @@ func (e *Explorer) record(r *vshim.Result, x *Exec) {
 		st.Samples = append(st.Samples, r.Trace)
 	}
 	if len(x.Viol) > 0 {
-		if len(st.Violations) < 20 {
+		// at most 20 kept per distinct tag list: counterexamples of one (possibly known)
+		// pattern never crowd out those of another
+		if e.perTag == nil {
+			e.perTag = map[string]int{}
+		}
+		k := fmt.Sprint(x.Known)
+		e.perTag[k]++
+		if e.perTag[k] <= 20 {
 			st.Violations = append(st.Violations, Violation{Choices: r.Choices, Trace: r.Trace, Viol: x.Viol, Known: x.Known})
 		}
 	}
